@@ -491,6 +491,17 @@ func writeEvidence(rd *runData, prop, tier string, seed int, sel, discharged, kn
 			mathArith = append(mathArith, u.rootKey)
 		}
 	}
+	assumedUsed := map[string]bool{}
+	for u := range units {
+		for k := range u.assumedUsed {
+			assumedUsed[k] = true
+		}
+	}
+	var au []string
+	for k := range assumedUsed {
+		au = append(au, k)
+	}
+	sort.Strings(au)
 	sort.Strings(fns)
 	sort.Strings(notes)
 	sort.Strings(mathArith)
@@ -515,6 +526,9 @@ func writeEvidence(rd *runData, prop, tier string, seed int, sel, discharged, kn
 	}
 	assumptions := assumptionsFor(prop)
 	assumptions = append(assumptions, "machine integers treated as mathematical integers (no overflow obligations) in: "+strings.Join(mathArith, ", "))
+	if len(au) > 0 {
+		assumptions = append(assumptions, "assumed (not verified) contracts of interfaces and library functions used by the functions under contract: "+strings.Join(au, ", "))
+	}
 	if len(unmodelled) > 0 {
 		var ks []string
 		for k, v := range unmodelled {
